@@ -416,6 +416,7 @@ func Judge(prog []gen.Stmt, real Real) Verdict {
 	if sawUnspec != "" {
 		return Verdict{Kind: "excluded", Detail: sawUnspec}
 	}
+	findingUnspec := ""
 	// listed findings: each finding flag alone, then both together
 	type fset struct {
 		name     string
@@ -426,13 +427,22 @@ func Judge(prog []gen.Stmt, real Real) Verdict {
 			fl := refmodel.Flags{LoopPerIter: bits&1 != 0, TrySeparate: bits&2 != 0, FinallyOnAbrupt: bits&4 != 0, DeferErrLast: bits&8 != 0,
 				TryCatchesControl: fs.try, ZeroParamSpread: fs.zps}
 			m := refmodel.Run(prog, fl)
-			if m.Unspec != "" || !m.UsedFinding {
+			if !m.UsedFinding {
+				continue
+			}
+			if m.Unspec != "" {
+				// the listed deviation steers the program into territory the statements
+				// do not determine: it cannot be judged either way
+				findingUnspec = m.Unspec
 				continue
 			}
 			if ok, _ := admits(m, real); ok {
 				return Verdict{Kind: "finding", Finding: fs.name, Variant: fmt.Sprintf("%+v", fl)}
 			}
 		}
+	}
+	if findingUnspec != "" {
+		return Verdict{Kind: "excluded", Detail: "after a listed known finding: " + findingUnspec}
 	}
 	// signature: kind of divergence + the kinds of the two events involved
 	sig := "mismatch:"
